@@ -107,6 +107,7 @@ class G:
         return out
 
     no_sub2 = False
+    allow_mz = True
 
     def after_borrow(self, depth, nl):
         """an argument evaluated while a row of xss is lent to the same call: reading xss there
@@ -235,7 +236,7 @@ class G:
             return ("chain", [self.pick(["<", "<=", "==", "!=", ">", ">="]) for _ in range(n - 1)], ops)
         if r == 11 and not nl:
             return ("ifexp", self.bool_tree(D), self.bool_tree(D), self.bool_tree(D))
-        if r == 12:
+        if r == 12 and self.allow_mz:
             self.leaves += 1
             return ("mz", self.nk())
         if r == 13:
@@ -409,9 +410,10 @@ ALL_KINDS = ["assign", "if", "while", "return", "args", "aug", "setitem", "augit
 PLACE_KINDS = ["setitem", "augitem", "augitem2", "borrowarg", "augsel", "augsel", "borrow3", "borrow3"]
 
 
-def _one(draw, allow_known=False, max_depth=4, prefix="", allow_boom=True, kinds=None):
+def _one(draw, allow_known=False, max_depth=4, prefix="", allow_boom=True, kinds=None, classical=False):
     """-> dict(body=<helper fdefs + main function named {prefix}main>, labels, nontrivial, excluded)"""
-    g = G(draw, max_depth=max_depth, allow_known=allow_known, allow_boom=allow_boom)
+    g = G(draw, max_depth=max_depth, allow_known=allow_known, allow_boom=allow_boom and not classical)
+    g.allow_mz = not classical
     lines = ["xs = array(10, 20, 30)", "xss = array(array(1, 2), array(3, 4))"]
     labels = set()
     n_stmts = draw(st.integers(1, 4))
@@ -565,13 +567,13 @@ def programs(draw, allow_known=False, max_depth=4, kinds=None):
 
 
 @st.composite
-def program_batches(draw, k=5, allow_known=False, max_depth=4, kinds=None):
+def program_batches(draw, k=5, allow_known=False, max_depth=4, kinds=None, classical=False):
     """k programs in one module (one selene build); only the last one may panic.
     -> dict(src, parts=[{src, labels, nontrivial, excluded}])"""
     parts = []
     bodies = []
     for i in range(k):
-        r = _one(draw, allow_known, max_depth, prefix=f"p{i}_", allow_boom=(i == k - 1), kinds=kinds)
+        r = _one(draw, allow_known, max_depth, prefix=f"p{i}_", allow_boom=(i == k - 1), kinds=kinds, classical=classical)
         b = r.pop("body")
         bodies.append(b)
         r["src"] = HELPERS + "\n" + b + f"\n@guppy\ndef main() -> None:\n    p{i}_main()\n"
